@@ -23,7 +23,15 @@
 **   mode=long     every type x entry point x rotation of the class order: 30 lookups
 **                 from cold followed by a verification sweep
 **   mode=rt       run-time types: ns=<list> pool=<k> variants=<k> stride=<k>
+**   mode=recycle  run-time types whose calloc block is handed back and reused: T1 declares class X, X is looked
+**                 up, T1 is deleted, T2 (same block) declares X with another instance or not at all and X is the
+**                 FIRST lookup on T2; plus lookups alternating between live types that declare X differently
 **   mode=cast     cast(obj, T) for every ordered pair of exported types
+**   mode=matrix only=fail warm=1   (C12) the cells whose class is absent / whose member is empty, cold and after
+**                 every other class of the type has been looked up
+**   mode=api      (C12) the public functions (len, push, get, c_float, sopen, lock, current, ...) on an object of
+**                 every exported type that lacks the needed class or member, cold and warm: ClassError, object
+**                 bytes unchanged; and such objects offered to containers as element / key / value
 **   shard=i/n     (matrix/hist/long) only types with index % n == i
 **   count=0       report states/nontrivial as *_local only (instance re-explores a space owned by another instance)
 **   replay=<case> run one recorded case
@@ -144,6 +152,9 @@ static struct ucls U[NU];
 static char rcname[NRC][12];
 static var BI[NBC][2][4 + MAXMEM];                     /* header + members */
 static var RI[NRC][4 + 2];
+#define NALT 8
+static var RI2[NALT][4 + 2];                           /* a second, different instance object for the first run-time classes */
+static var alt_rt[NALT];
 
 /* functions behind the harness's own instances; every call is counted */
 static int64_t n_stub, n_size, n_alloc, n_dealloc, n_construct, n_destruct, n_cast, n_docname, n_m0, n_m1;
@@ -211,7 +222,7 @@ static var new_type_raw(const char* nm, size_t sz, var* insts, int n, int manage
   for (int i = 0; i < n; i++) items[2 + i] = insts[i];
   items[2 + n] = Terminal;
   var args = $(Tuple, items);
-  return managed ? new_with(Type, args) : new_raw_with(Type, args);
+  return managed == 2 ? new_root_with(Type, args) : managed ? new_with(Type, args) : new_raw_with(Type, args);
 }
 
 static void setup_universe(void) {
@@ -258,7 +269,20 @@ static void setup_rt_classes(void) {
     struct RtC* body = header_init(RI[k], u->obj, AllocStatic);
     body->m0 = rt_m0; body->m1 = (k & 1) ? rt_m1 : NULL;
     u->inst[0] = u->inst[1] = body;
+    if (k < NALT) {
+      struct RtC* b2 = header_init(RI2[k], u->obj, AllocStatic);
+      b2->m0 = rt_m0; b2->m1 = (k & 1) ? NULL : rt_m1;
+      alt_rt[k] = b2;
+    }
   }
+}
+
+/* an instance object for class c that differs from U[c].inst[0] (for a built-in class its first member is empty) */
+static var alt_inst(int c) {
+  if (c < NBC) return U[c].inst[1];
+  if (c - NBC < NALT) return alt_rt[c - NBC];
+  fatal("no alternative instance for class %d", c);
+  return NULL;
 }
 
 /* which classes have a cache slot?  found by experiment, not taken from Type.c */
@@ -282,6 +306,7 @@ struct tut {
   var T; var obj; const char* name;
   int ti;                      /* index in TYS, or -1 for a run-time type */
   int n; const int* comp; const int* vr;   /* run-time: declared (class, variant) list */
+  const var* insts;            /* run-time: the instance objects handed to new(Type, ...), in order */
 };
 
 static var OBJ[sizeof TYS / sizeof TYS[0]][4 + 8];
@@ -310,7 +335,7 @@ static var declared(struct tut* t, int c, struct Type** trip) {
   } else r = raw_scan(t->T, U[c].name);
   if (trip) *trip = r;
   if (t->ti >= 0) return r ? r->inst : NULL;
-  for (int i = 0; i < t->n; i++) if (t->comp[i] == c) return U[c].inst[t->vr[i]];
+  for (int i = 0; i < t->n; i++) if (t->comp[i] == c) return t->insts[i];
   return NULL;
 }
 
@@ -608,6 +633,8 @@ static void mode_matrix(void) {
   vf.phase = "matrix";
   h_restore = 2;
   uint64_t cells = 0, present_cells = 0, empty_member_cells = 0;
+  int only_fail = vf_param_is("only", "fail", "all");
+  int warm = (int)vf_param_i("warm", 0);
   for (int ti = 0; ti < NTY; ti++) {
     if (!in_shard(ti)) continue;
     struct tut* t = &BT[ti];
@@ -616,13 +643,26 @@ static void mode_matrix(void) {
         if (ep == EP_TYPEOF_T && ci > 0) break;
         int nm = ep_has_member(ep) ? U[ci].nmem : 1;
         for (int mi = 0; mi < nm; mi++) {
+          if (only_fail) {
+            /* only the cells the type cannot answer: class absent, or member left empty */
+            struct tut* src = ep_on_typeobj(ep) ? &BT[TI_TYPE] : t;
+            var di = ep == EP_TYPEOF_T ? (var)Type : declared(src, ci, NULL);
+            if (di && !(ep_has_member(ep) && *(var*)((char*)di + U[ci].off[mi]) == NULL)) continue;
+          }
           HN = 0; push_op(ci, ep, mi); push_op(ci, ep, mi);
           vf_watchdog(60);
           run_history(t);
+          if (vf_want_sample()) vf_sample("%s", vf_cur);
+          if (warm) {
+            /* the same cell after every OTHER class has been looked up successfully or not (all caches warm) */
+            HN = 0;
+            for (int c2 = 0; c2 < NBC; c2++) if (c2 != ci) { push_op(c2, EP_TINST, -1); if (ep_on_typeobj(ep)) push_op(c2, EP_INST_T, -1); }
+            push_op(ci, ep, mi);
+            run_history(t);
+          }
           cells++; vf.evaluations++;
           if (X.present) present_cells++;
           if (X.present && ep_has_member(ep) && !X.memb) empty_member_cells++;
-          if (vf_want_sample()) vf_sample("%s", vf_cur);
         }
       }
     }
@@ -870,7 +910,7 @@ static void api_checks(struct tut* t, int managed) {
   vf.evaluations += 3;
   /* every declared class through a real object of the type */
   for (int i = 0; i < n && i < 40; i++) {
-    if (instance(o, U[comp[i]].obj) != U[comp[i]].inst[vr[i]]) api_fail("object/instance-differs", "instance(new(T), %s) is not the declared instance", U[comp[i]].name);
+    if (instance(o, U[comp[i]].obj) != t->insts[i]) api_fail("object/instance-differs", "instance(new(T), %s) is not the declared instance", U[comp[i]].name);
     vf.evaluations++;
   }
   /* the method() macro itself on run-time classes: invoked exactly when declared and non-empty */
@@ -971,7 +1011,7 @@ static void run_rt_case(int n, int kind, unsigned subset, int perm, int variant,
   R[1] = Tv;
   static var objbuf[4 + 8];
   struct tut t; memset(&t, 0, sizeof t);
-  t.T = Tv; t.ti = -1; t.name = tn; t.n = n; t.comp = comp; t.vr = vr;
+  t.T = Tv; t.ti = -1; t.name = tn; t.n = n; t.comp = comp; t.vr = vr; t.insts = insts;
   t.obj = header_init(objbuf, t.T, AllocStack);
   is_rt = 1; h_restore = 0;
 
@@ -1063,6 +1103,371 @@ static void mode_rt(void) {
   }
 }
 
+
+/* ---- mode=recycle: a type object that takes the address of a deleted one; alternating live types ---------- */
+
+static uint64_t rc_cases, rc_same_addr, rc_other_addr, il_cases;
+
+static void del_type(var T, int managed) {
+  var e = VF_CATCH(if (managed == 2) del_root(T); else if (managed) del(T); else del_raw(T));
+  if (e) api_fail("del-type/raised", "del(run-time type) raised %s", vf_exc_name(e));
+}
+
+static void rt_tut(struct tut* t, var T, const char* nm, int n, const int* comp, const int* vr, const var* insts, var* objbuf) {
+  memset(t, 0, sizeof *t);
+  t->T = T; t->ti = -1; t->name = nm; t->n = n; t->comp = comp; t->vr = vr; t->insts = insts;
+  t->obj = header_init(objbuf, T, AllocStack);
+}
+
+/*
+** T1 = [.. X:I1 ..]; X looked up through ep1 (twice); T1 deleted; T2 built at once with the same number of
+** instances: t2kind 0: X with a different instance I2, t2kind 1: another class in X's place (X absent).
+** The first lookup on T2 is X through ep2 (member mi); then a sweep over the universe.
+*/
+static void recycle_case(int ci, int n, int ep1, int t2kind, int ep2, int mi, int managed) {
+  static int comp1[4], comp2[4], vr0[4] = { 0, 0, 0, 0 };
+  static var ins1[4], ins2[4];
+  static var ob1[4 + 8], ob2[4 + 8];
+  vf_set_cur("recycle cls=%s n=%d ep1=%d t2=%d ep2=%d m=%d managed=%d", U[ci].name, n, ep1, t2kind, ep2, mi, managed);
+  if (vf.replay && strcmp(vf.replay, vf_cur) != 0) return;
+  vf_watchdog(60);
+  int fill[2] = { NBC + 6, NBC + 7 }, other = NBC + 5;
+  int xpos = n == 1 ? 0 : 1;
+  for (int i = 0, f = 0; i < n; i++) {
+    comp1[i] = comp2[i] = i == xpos ? ci : fill[f++];
+    ins1[i] = ins2[i] = U[comp1[i]].inst[0];
+  }
+  if (t2kind == 0) ins2[xpos] = alt_inst(ci);
+  else { comp2[xpos] = other; ins2[xpos] = U[other].inst[0]; }
+  is_rt = 1; h_restore = 0; rt_count_nontrivial = 1;
+  uint64_t changes0 = rt_state_changes;
+
+  volatile var T1v = NULL;
+  var e = VF_CATCH(T1v = new_type_raw(rt_tname[0], 40, ins1, n, managed));
+  if (e || !T1v) { api_fail("new-type/raised", "new(Type, ...) raised %s", vf_exc_name(e)); return; }
+  R[1] = T1v;
+  struct tut t1; rt_tut(&t1, T1v, rt_tname[0], n, comp1, vr0, ins1, ob1);
+  HN = 0; push_op(ci, ep1, 0); push_op(ci, ep1, U[ci].nmem - 1);
+  run_history(&t1);
+  uintptr_t addr1 = (uintptr_t)T1v;
+  R[1] = NULL;
+  del_type(T1v, managed);
+
+  volatile var T2v = NULL;
+  e = VF_CATCH(T2v = new_type_raw(rt_tname[1], 40, ins2, n, managed));
+  if (e || !T2v) { api_fail("new-type/raised", "new(Type, ...) raised %s", vf_exc_name(e)); return; }
+  R[1] = T2v;
+  int same = (uintptr_t)T2v == addr1;
+  struct tut t2; rt_tut(&t2, T2v, rt_tname[1], n, comp2, vr0, ins2, ob2);
+  /* the FIRST lookup on the new type is the class last looked up on the dead one */
+  HN = 0; push_op(ci, ep2, mi);
+  run_history(&t2);
+  /* then everything */
+  HN = 0;
+  for (int c = 0; c < NBC + NALT; c++) {
+    push_op(c, EP_TINST, -1); push_op(c, EP_IMPL, -1);
+    if (c == ci || c == other || c == fill[0] || c == fill[1]) { push_op(c, EP_TIMPLM, U[c].nmem - 1); push_op(c, EP_METH, 0); push_op(c, EP_TMETH, U[c].nmem - 1); }
+  }
+  run_history(&t2);
+  R[1] = NULL;
+  del_type(T2v, managed);
+  rc_cases++;
+  if (same) { rc_same_addr++; vf.executions++; vf.states += 2 + (rt_state_changes - changes0); if (vf_want_sample()) vf_sample("%s", vf_cur); }
+  else rc_other_addr++;
+}
+
+/* three live types: A declares X with I1, B declares X with I2, C does not declare X; lookups of X alternate */
+static void interleave_case(int ci, int ep, int mi) {
+  static int compa[1], compc[1], vr0[1] = { 0 };
+  static var insa[1], insb[1], insc[1];
+  static var oba[4 + 8], obb[4 + 8], obc[4 + 8];
+  vf_set_cur("interleave cls=%s ep=%d m=%d", U[ci].name, ep, mi);
+  if (vf.replay && strcmp(vf.replay, vf_cur) != 0) return;
+  vf_watchdog(60);
+  compa[0] = ci; compc[0] = NBC + 5;
+  insa[0] = U[ci].inst[0]; insb[0] = alt_inst(ci); insc[0] = U[NBC + 5].inst[0];
+  is_rt = 1; h_restore = 0; rt_count_nontrivial = 1;
+  var Ta = new_type_raw("RtLiveA", 40, insa, 1, 0), Tb = new_type_raw("RtLiveB", 40, insb, 1, 0), Tc = new_type_raw("RtLiveC", 40, insc, 1, 0);
+  struct tut t[3];
+  rt_tut(&t[0], Ta, "RtLiveA", 1, compa, vr0, insa, oba);
+  rt_tut(&t[1], Tb, "RtLiveB", 1, compa, vr0, insb, obb);
+  rt_tut(&t[2], Tc, "RtLiveC", 1, compc, vr0, insc, obc);
+  static const int order[] = { 0, 1, 2, 0, 1, 2, 1, 0, 2, 2, 1, 0 };
+  uint64_t changes0 = rt_state_changes;
+  for (size_t i = 0; i < sizeof order / sizeof order[0]; i++) {
+    HN = 0; push_op(ci, i < 6 ? ep : (ep + (int)i) % 8, i < 6 ? mi : U[ci].nmem - 1);
+    run_history(&t[order[i]]);
+  }
+  vf.states += 3 + (rt_state_changes - changes0);
+  del_raw(Ta); del_raw(Tb); del_raw(Tc);
+  il_cases++; vf.executions++;
+  if (vf_want_sample()) vf_sample("%s", vf_cur);
+}
+
+static void mode_recycle(void) {
+  vf.phase = "recycle";
+  int full = (int)vf_param_i("full", 0);
+  /* X: every class of Cello.h (cached and uncached) and two run-time classes */
+  for (int c = 0; c < NBC + 2; c++) {
+    int nm = U[c].nmem;
+    for (int n = 1; n <= 3; n += 2)
+      for (int ep1 = 0; ep1 < 8; ep1++)
+        for (int t2kind = 0; t2kind < 2; t2kind++)
+          for (int ep2 = 0; ep2 < 8; ep2++) {
+            int nmi = ep_has_member(ep2) ? (nm > 1 ? 2 : 1) : 1;
+            for (int k = 0; k < nmi; k++) {
+              int mi = ep_has_member(ep2) ? (k == 0 ? 0 : nm - 1) : -1;
+              if (full) { for (int mg = 0; mg <= 2; mg += 2) recycle_case(c, n, ep1, t2kind, ep2, mi, mg); }
+              else recycle_case(c, n, ep1, t2kind, ep2, mi, ((ep1 + ep2 + n) & 1) ? 2 : 0);
+            }
+          }
+  }
+  for (int c = 0; c < NBC + 2; c++)
+    for (int ep = 0; ep < 8; ep++) {
+      int nmi = ep_has_member(ep) ? (U[c].nmem > 1 ? 2 : 1) : 1;
+      for (int k = 0; k < nmi; k++) interleave_case(c, ep, ep_has_member(ep) ? (k == 0 ? 0 : U[c].nmem - 1) : -1);
+    }
+  vf_extra("recycle_cases", "%" PRIu64, rc_cases);
+  vf_extra("recycle_same_address", "%" PRIu64, rc_same_addr);
+  vf_extra("recycle_other_address", "%" PRIu64, rc_other_addr);
+  vf_extra("interleave_cases", "%" PRIu64, il_cases);
+  if (rc_cases && rc_same_addr == 0)
+    vf_note("the allocator of this build never handed the block of the deleted type back to the next new(Type): the recycle family established nothing here (0 of %" PRIu64 " cases counted)", rc_cases);
+  else if (rc_other_addr)
+    vf_note("recycle: %" PRIu64 " of %" PRIu64 " cases got a different address and are not counted as executions", rc_other_addr, rc_cases);
+}
+
+/* ---- mode=api (C12): public functions on objects whose type lacks the class --------------------------------- */
+
+enum { AF_LEN, AF_PUSH, AF_PUSH_AT, AF_POP, AF_POP_AT, AF_GET, AF_SET, AF_MEM, AF_REM, AF_KEY_TYPE, AF_VAL_TYPE,
+       AF_C_INT, AF_C_FLOAT, AF_C_STR, AF_ITER_INIT, AF_ITER_NEXT, AF_ITER_LAST, AF_ITER_PREV, AF_ITER_TYPE,
+       AF_CALL, AF_SOPEN, AF_SCLOSE, AF_SSEEK, AF_STELL, AF_SFLUSH, AF_SEOF, AF_SREAD, AF_SWRITE,
+       AF_LOCK, AF_UNLOCK, AF_TRYLOCK, AF_CURRENT, AF_REF, AF_DEREF, AF_SORT, AF_SORT_BY, AF_RESIZE, AF_CONCAT, AF_APPEND,
+       AF_FORMAT_TO, AF_FORMAT_FROM, AF_LOOK_FROM, AF_START, AF_STOP, AF_JOIN, AF_RUNNING, NFN };
+static const struct { const char* fn; const char* cls; const char* mem; } FN[NFN] = {
+  { "len", "Len", "len" }, { "push", "Push", "push" }, { "push_at", "Push", "push_at" }, { "pop", "Push", "pop" }, { "pop_at", "Push", "pop_at" },
+  { "get", "Get", "get" }, { "set", "Get", "set" }, { "mem", "Get", "mem" }, { "rem", "Get", "rem" }, { "key_type", "Get", "key_type" }, { "val_type", "Get", "val_type" },
+  { "c_int", "C_Int", "c_int" }, { "c_float", "C_Float", "c_float" }, { "c_str", "C_Str", "c_str" },
+  { "iter_init", "Iter", "iter_init" }, { "iter_next", "Iter", "iter_next" }, { "iter_last", "Iter", "iter_last" }, { "iter_prev", "Iter", "iter_prev" }, { "iter_type", "Iter", "iter_type" },
+  { "call_with", "Call", "call_with" },
+  { "sopen", "Stream", "sopen" }, { "sclose", "Stream", "sclose" }, { "sseek", "Stream", "sseek" }, { "stell", "Stream", "stell" }, { "sflush", "Stream", "sflush" },
+  { "seof", "Stream", "seof" }, { "sread", "Stream", "sread" }, { "swrite", "Stream", "swrite" },
+  { "lock", "Lock", "lock" }, { "unlock", "Lock", "unlock" }, { "trylock", "Lock", "trylock" },
+  { "current", "Current", "current" }, { "ref", "Pointer", "ref" }, { "deref", "Pointer", "deref" },
+  { "sort", "Sort", "sort_by" }, { "sort_by", "Sort", "sort_by" }, { "resize", "Resize", "resize" },
+  { "concat", "Concat", "concat" }, { "append", "Concat", "append" },
+  { "format_to", "Format", "format_to" }, { "format_from", "Format", "format_from" }, { "look_from", "Show", "look" },
+  { "start", "Start", "start" }, { "stop", "Start", "stop" }, { "join", "Start", "join" }, { "running", "Start", "running" },
+};
+
+static bool api_lt(var a, var b) { return a < b; }
+
+static void api_call(int f, var T, var o) {
+  char buf[8] = { 0 };
+  switch (f) {
+  case AF_LEN: len(o); break;
+  case AF_PUSH: push(o, $I(1)); break;
+  case AF_PUSH_AT: push_at(o, $I(1), $I(0)); break;
+  case AF_POP: pop(o); break;
+  case AF_POP_AT: pop_at(o, $I(0)); break;
+  case AF_GET: get(o, $I(0)); break;
+  case AF_SET: set(o, $I(0), $I(1)); break;
+  case AF_MEM: mem(o, $I(0)); break;
+  case AF_REM: rem(o, $I(0)); break;
+  case AF_KEY_TYPE: key_type(o); break;
+  case AF_VAL_TYPE: val_type(o); break;
+  case AF_C_INT: c_int(o); break;
+  case AF_C_FLOAT: c_float(o); break;
+  case AF_C_STR: c_str(o); break;
+  case AF_ITER_INIT: iter_init(o); break;
+  case AF_ITER_NEXT: iter_next(o, $I(0)); break;
+  case AF_ITER_LAST: iter_last(o); break;
+  case AF_ITER_PREV: iter_prev(o, $I(0)); break;
+  case AF_ITER_TYPE: iter_type(o); break;
+  case AF_CALL: call_with(o, tuple()); break;
+  case AF_SOPEN: sopen(o, $S("/nonexistent/x"), $S("r")); break;
+  case AF_SCLOSE: sclose(o); break;
+  case AF_SSEEK: sseek(o, 0, SEEK_SET); break;
+  case AF_STELL: stell(o); break;
+  case AF_SFLUSH: sflush(o); break;
+  case AF_SEOF: seof(o); break;
+  case AF_SREAD: sread(o, buf, 1); break;
+  case AF_SWRITE: swrite(o, buf, 1); break;
+  case AF_LOCK: lock(o); break;
+  case AF_UNLOCK: unlock(o); break;
+  case AF_TRYLOCK: trylock(o); break;
+  case AF_CURRENT: current(T); break;
+  case AF_REF: ref(o, $I(0)); break;
+  case AF_DEREF: deref(o); break;
+  case AF_SORT: sort(o); break;
+  case AF_SORT_BY: sort_by(o, api_lt); break;
+  case AF_RESIZE: resize(o, 0); break;
+  case AF_CONCAT: concat(o, o); break;
+  case AF_APPEND: append(o, $I(1)); break;
+  case AF_FORMAT_TO: format_to(o, 0, "x"); break;
+  case AF_FORMAT_FROM: format_from(o, 0, "x"); break;
+  case AF_LOOK_FROM: look_from(o, $S("1"), 0); break;
+  case AF_START: start(o); break;
+  case AF_STOP: stop(o); break;
+  case AF_JOIN: join(o); break;
+  case AF_RUNNING: running(o); break;
+  }
+}
+
+static const char* WARMN[3] = { "cold", "warm", "after-current" };
+
+/* bring the type's caches into state w: 0 cold; 1 every class but `skip` looked up through the public lookups;
+   2 as 1, and current(T) really called when T has it (the call the scenario of the property names) */
+static void api_warm(int ti, int w, int skip) {
+  restore_type(TI_TYPE); if (ti > 0) restore_type(ti);
+  if (w == 0) return;
+  for (int c = 0; c < NBC; c++) if (c != skip) { instance(BT[ti].obj, U[c].obj); type_implements(BT[ti].T, U[c].obj); }
+  if (w == 2) current(BT[ti].T);
+}
+
+static int lacks(int ti, int ci, int mi) {
+  var di = declared(&BT[ti], ci, NULL);
+  return !di || *(var*)((char*)di + U[ci].off[mi]) == NULL;
+}
+
+static void mode_api(void) {
+  vf.phase = "api";
+  int cur_c = find_class("Current");
+  uint64_t ncalls = 0, ncont = 0;
+  restore_world();
+  for (int ti = 0; ti < NTY; ti++) {
+    if (!in_shard(ti)) continue;
+    int has_current = !lacks(ti, cur_c, 0);
+    for (int f = 0; f < NFN; f++) {
+      int ci = find_class(FN[f].cls), mi = find_member(ci, FN[f].mem);
+      if (mi < 0) fatal("api table: %s.%s", FN[f].cls, FN[f].mem);
+      if (!lacks(ti, ci, mi)) continue;           /* the type provides it: calling it on a blank object is not this check */
+      int absent = declared(&BT[ti], ci, NULL) == NULL;
+      for (int w = 0; w < 3; w++) {
+        if (w == 2 && !has_current) continue;
+        vf_set_cur("api type=%s fn=%s state=%s", TYS[ti].name, FN[f].fn, WARMN[w]);
+        if (vf.replay && strcmp(vf.replay, vf_cur) != 0) continue;
+        vf_watchdog(60);
+        var o = BT[ti].obj;
+        memset(o, 0, 8 * sizeof(var));
+        static var before[4 + 8];
+        /* the cache state is prepared inside the try block: the harness's own exception bookkeeping (which
+           calls current(Thread)) must not warm the type between the preparation and the call */
+        var e = VF_CATCH({ api_warm(ti, w, ci); memcpy(before, OBJ[ti], sizeof before); api_call(f, BT[ti].T, o); });
+        ncalls++; vf.executions++; vf.transitions++; vf.evaluations++;
+        if (w) vf.nontrivial++;
+        char l[200];
+        const char* why = absent ? "absent-class" : "empty-member";
+        if (!e) { snprintf(l, sizeof l, "dispatch-api/%s/%s/%s/no-exception", FN[f].fn, why, WARMN[w]); vf_violation(l, NULL, "%s on an object of type %s returned normally; the type %s class %s%s%s: ClassError expected and nothing may be invoked", FN[f].fn, TYS[ti].name, absent ? "does not implement" : "leaves empty in", FN[f].cls, absent ? "" : " the member ", absent ? "" : FN[f].mem); }
+        else if (e != ClassError) { snprintf(l, sizeof l, "dispatch-api/%s/%s/%s/raised-%s-not-ClassError", FN[f].fn, why, WARMN[w], vf_exc_name(e)); vf_violation(l, NULL, "%s on an object of type %s raised %s, ClassError expected", FN[f].fn, TYS[ti].name, vf_exc_name(e)); }
+        if (memcmp(before, OBJ[ti], sizeof before) != 0) { snprintf(l, sizeof l, "dispatch-api/%s/%s/%s/object-changed", FN[f].fn, why, WARMN[w]); vf_violation(l, NULL, "%s on an object of type %s changed the object's bytes", FN[f].fn, TYS[ti].name); memcpy(OBJ[ti], before, sizeof before); }
+        if (vf_want_sample()) vf_sample("%s", vf_cur);
+      }
+    }
+  }
+  /* containers offered an element / key / value whose type cannot be converted to the element type */
+  static const struct { const char* name; int map; int tree; int et; } CK[] = {
+    { "Array-of-Float", 0, 0, 1 }, { "Array-of-Int", 0, 0, 0 }, { "Array-of-String", 0, 0, 2 },
+    { "List-of-Float", 0, 1, 1 }, { "List-of-Int", 0, 1, 0 }, { "List-of-String", 0, 1, 2 },
+    { "Table-Int-to-Float", 1, 0, 1 }, { "Table-String-to-Int", 1, 0, 0 }, { "Tree-Int-to-Float", 1, 1, 1 }, { "Tree-String-to-Int", 1, 1, 0 },
+  };
+  static const char* conv[3] = { "C_Int", "C_Float", "C_Str" };
+  static const char* SOP[] = { "push", "push_at-0", "push_at-1", "set-0", "append", "mem", "rem" };
+  static const char* MOP[] = { "set-value", "set-key", "get", "mem", "rem" };
+  for (size_t k = 0; k < sizeof CK / sizeof CK[0]; k++) {
+    var ET = CK[k].et == 0 ? Int : CK[k].et == 1 ? Float : String;      /* element / value type */
+    var KT = NULL;
+    var c = NULL;
+    int kstr = 0;
+    for (int ti = 0; ti < NTY; ti++) {
+      if (!in_shard(ti)) continue;
+      for (int w = 0; w < 3; w++) {
+        int nops = CK[k].map ? 5 : 7;
+        for (int op = 0; op < nops; op++) {
+          /* which conversion does this operation need from the foreign object? */
+          int need;
+          if (!CK[k].map) need = CK[k].et;
+          else { kstr = strncmp(CK[k].name + (CK[k].tree ? 5 : 6), "String", 6) == 0; need = op == 0 ? CK[k].et : (kstr ? 2 : 0); }
+          int nci = find_class(conv[need]);
+          if (!lacks(ti, nci, 0)) continue;
+          if (w == 2 && lacks(ti, cur_c, 0)) continue;
+          vf_set_cur("container kind=%s obj=%s op=%s state=%s", CK[k].name, TYS[ti].name, CK[k].map ? MOP[op] : SOP[op], WARMN[w]);
+          if (vf.replay && strcmp(vf.replay, vf_cur) != 0) continue;
+          vf_watchdog(60);
+          if (!c) {
+            if (!CK[k].map) { c = CK[k].tree ? (var)new_raw(List, ET) : (var)new_raw(Array, ET); }
+            else { KT = kstr ? String : Int; c = CK[k].tree ? (var)new_raw(Tree, KT, ET) : (var)new_raw(Table, KT, ET); }
+            for (int i = 0; i < 2; i++) {
+              var v = CK[k].et == 0 ? (var)$I(10 + i) : CK[k].et == 1 ? (var)$F(10.5 + i) : (var)$S(i ? "eleven" : "ten");
+              if (!CK[k].map) push(c, v);
+              else set(c, kstr ? (var)$S(i ? "k1" : "k0") : (var)$I(i), v);
+            }
+          }
+          var o = BT[ti].obj;
+          memset(o, 0, 8 * sizeof(var));
+          volatile bool bres = false; volatile var gres = NULL;
+          var k0 = kstr ? (var)$S("k0") : (var)$I(0);
+          var vok = CK[k].et == 0 ? (var)$I(7) : CK[k].et == 1 ? (var)$F(7.5) : (var)$S("seven");
+          var e;
+          if (!CK[k].map) {
+            switch (op) {
+            case 0: e = VF_CATCH({ api_warm(ti, w, nci); push(c, o); }); break;
+            case 1: e = VF_CATCH({ api_warm(ti, w, nci); push_at(c, o, $I(0)); }); break;
+            case 2: e = VF_CATCH({ api_warm(ti, w, nci); push_at(c, o, $I(1)); }); break;
+            case 3: e = VF_CATCH({ api_warm(ti, w, nci); set(c, $I(0), o); }); break;
+            case 4: e = VF_CATCH({ api_warm(ti, w, nci); append(c, o); }); break;
+            case 5: e = VF_CATCH({ api_warm(ti, w, nci); bres = mem(c, o); }); break;
+            default: e = VF_CATCH({ api_warm(ti, w, nci); rem(c, o); }); break;
+            }
+          } else {
+            switch (op) {
+            case 0: e = VF_CATCH({ api_warm(ti, w, nci); set(c, k0, o); }); break;
+            case 1: e = VF_CATCH({ api_warm(ti, w, nci); set(c, o, vok); }); break;
+            case 2: e = VF_CATCH({ api_warm(ti, w, nci); gres = get(c, o); }); break;
+            case 3: e = VF_CATCH({ api_warm(ti, w, nci); bres = mem(c, o); }); break;
+            default: e = VF_CATCH({ api_warm(ti, w, nci); rem(c, o); }); break;
+            }
+          }
+          ncont++; vf.executions++; vf.transitions++; vf.evaluations++;
+          if (w) vf.nontrivial++;
+          const char* opn = CK[k].map ? MOP[op] : SOP[op];
+          int is_query = CK[k].map ? op >= 2 : op >= 5;
+          char l[200]; int bad = 0;
+          if (!e) {
+            /* an insertion must be refused; a query may answer "not there" but not "there" */
+            int silent = !is_query || (strcmp(opn, "mem") == 0 ? (bool)bres : 1);
+            if (silent) { snprintf(l, sizeof l, "dispatch-api/container/%s/%s/%s/no-exception", CK[k].name, opn, WARMN[w]); vf_violation(l, NULL, "%s with an object of type %s (which has no %s) succeeded", opn, TYS[ti].name, conv[need]); bad = 1; }
+          } else if (e != ClassError && e != TypeError && e != ValueError && !(is_query && e == KeyError)) {
+            snprintf(l, sizeof l, "dispatch-api/container/%s/%s/%s/raised-%s", CK[k].name, opn, WARMN[w], vf_exc_name(e)); vf_violation(l, NULL, "%s with an object of type %s raised %s", opn, TYS[ti].name, vf_exc_name(e)); bad = 1;
+          }
+          /* the container is as it was: two elements / bindings with their values */
+          volatile int okc = 1;
+          var e2 = VF_CATCH({
+            if (len(c) != 2) okc = 0;
+            for (int i = 0; i < 2 && okc; i++) {
+              var g = CK[k].map ? get(c, kstr ? (var)$S(i ? "k1" : "k0") : (var)$I(i)) : get(c, $I(i));
+              if (CK[k].et == 0 && c_int(g) != 10 + i) okc = 0;
+              if (CK[k].et == 1 && c_float(g) != 10.5 + i) okc = 0;
+              if (CK[k].et == 2 && strcmp(c_str(g), i ? "eleven" : "ten") != 0) okc = 0;
+            }
+          });
+          if (e2 || !okc) {
+            snprintf(l, sizeof l, "dispatch-api/container/%s/%s/%s/container-changed", CK[k].name, opn, WARMN[w]);
+            vf_violation(l, NULL, "after the refused %s with an object of type %s the container no longer holds its two original items (len %s)", opn, TYS[ti].name, e2 ? "raises" : "or contents differ");
+            bad = 1;
+          }
+          if (bad) { var e3 = VF_CATCH(del_raw(c)); (void)e3; c = NULL; }
+          if (vf_want_sample()) vf_sample("%s", vf_cur);
+        }
+      }
+    }
+    if (c) { del_raw(c); c = NULL; }
+  }
+  vf_extra("api_calls", "%" PRIu64, ncalls);
+  vf_extra("container_operations", "%" PRIu64, ncont);
+  restore_world();
+}
+
 /* ---- cross-check of the hand-written tables against the header actually used ------------ */
 
 static void crosscheck_header(void) {
@@ -1137,6 +1542,8 @@ int main(int argc, char** argv) {
   else if (strcmp(mode, "long") == 0) mode_long((int)vf_param_i("rotstep", 1));
   else if (strcmp(mode, "cast") == 0) mode_cast();
   else if (strcmp(mode, "rt") == 0) mode_rt();
+  else if (strcmp(mode, "recycle") == 0) mode_recycle();
+  else if (strcmp(mode, "api") == 0) mode_api();
   else fatal("unknown mode %s", mode);
   if (vf_param_i("count", 1) == 0) {
     /* this instance re-explores a space that another instance of the check owns (a shallower depth, a sanitizer
